@@ -23,6 +23,7 @@ CONSTANTS
   JobMaxes = {1, 100}
   Ops <- mcOps
   Setup <- mcSetup
+  ProjOfName <- mcProjOfName
   Depth = 25
   AttBound = 100
   ViewKeep = {}
